@@ -2,7 +2,7 @@
     The reference model is Spec.v (the harness compares every API result of the implementation with it).
     The theorems below state that the reference really is a map with the promised error behaviour. *)
 From Bbolt Require Import Base Consts Spec SpecProofs SpecBucketProofs.
-From Bbolt Require Node NodeProofs Tree TreeProofs.
+From Bbolt Require Node NodeProofs Tree TreeProofs TreeNestedProofs.
 
 (** Argument and type errors (and every other error) leave the state unchanged. *)
 Theorem C04_errors_change_nothing : forall w o root e out root',
@@ -208,5 +208,18 @@ Theorem C04_bucket_commit_keeps_content : forall ps fill fuel t order t' evs inl
   aligned t -> commit_bucket ps fill fuel t order = Ok (t', evs, inl) -> flat t' = flat t /\ aligned t'.
 Proof. exact commit_bucket_flat. Qed.
 Print Assumptions C04_bucket_commit_keeps_content.
+
+(** a bucket WITH child buckets: writing the children's new values back (Cursor.seek + Cursor.node() + node.put) and committing keeps every
+    key, and every element that is not the entry of a written-back child - for sorted content (the hypothesis is needed: on an unsorted
+    leaf the linear lookup and node.put's bisection disagree, TreeNestedProofs.put_at_key_needs_sorted) *)
+Import TreeNestedProofs.
+Theorem C04_nested_commit_keeps_content : forall ps fill fuel t order children t' evs inl,
+  aligned t -> isorted (flat t) ->
+  commit_parent_bucket ps fill fuel t order children = Ok (t', evs, inl) ->
+  map i_key (flat t') = map i_key (flat t) /\
+  Forall2 (fun a b => i_key a = i_key b /\ (~ In (i_key a) (map fst children) -> a = b)) (flat t) (flat t') /\
+  aligned t'.
+Proof. exact commit_parent_bucket_flat. Qed.
+Print Assumptions C04_nested_commit_keeps_content.
 
 End NodeLayer.
